@@ -33,6 +33,49 @@ ENC_FORBIDDEN = {
 }
 
 
+def params_flush(ck, P):
+    """deflateParams: the compress function that continues the stream is selected by (strategy, level) in
+    algorithm::run; a change of either must be preceded by a flush of the current block (Z_BLOCK), because the
+    functions keep incompatible per-block state (open static block, deferred literal)."""
+    from .. import sig as _sig
+    R = "ATOM/params-flush"
+    pm = P.fn(Z + "deflate::params")
+    run_ = P.fn(Z + "deflate::algorithm::run")
+    if not (ck.anchor("fn deflate::params", pm) and ck.anchor("fn algorithm::run", run_)):
+        return
+    ck.use_fn(pm)
+    # what does run dispatch on?
+    keys = set()
+    for b in run_.live:
+        t = run_.blocks[b]["t"]
+        if t["k"] == "switch":
+            keys |= atoms.names_in(run_.operand_expr(t["discr"]), run_) & {"strategy", "level"}
+    for c in run_.live_calls():
+        pass
+    ck.decide({"strategy", "level"} <= keys, R, "run:dispatch-keys", "algorithm::run selects the compress function by strategy and level",
+              "algorithm::run dispatches on %s" % sorted(keys), where(run_))
+    fl = [c for c in pm.live_calls(r"zlib_rs::deflate::deflate$")]
+    if not ck.anchor("flush (deflate(stream, Block)) in deflate::params", len(fl) == 1, where(pm)):
+        return
+    a = pm.call_args(fl[0])
+    ck.decide(pm.enum_const(a[1]) == (Z + "DeflateFlush", "Block"), R, "params:flush-mode", "flushes with Z_BLOCK", "deflateParams flushes with %s" % mir.fmt(a[1], pm), where(pm, fl[0].line))
+    gs = [s for s, lvl in _sig.backward_guards(pm, fl[0].bb, depth=4)]
+    has_strategy = any(s.rel == "Ne" and "strategy" in s.names for s in gs)
+    has_func = any(s.rel in ("Ne",) and "func" in s.names for s in gs) or any(s.rel == "Ne" and "CONFIGURATION_TABLE" in s.names for s in gs)
+    has_first = any(s.rel == "Ne" and "last_flush" in s.names and -2 in s.consts for s in gs)
+    ck.decide(has_strategy, R, "params:strategy-change", "flush when the strategy changes",
+              "deflateParams no longer flushes the open block when only the strategy changes: algorithm::run then continues the block with a different "
+              "compress function (huff/rle vs table function) whose per-block state is incompatible", where(pm, fl[0].line))
+    ck.decide(has_func, R, "params:function-change", "flush when the level's compress function changes",
+              "deflateParams no longer flushes when the level change selects a different compress function", where(pm, fl[0].line))
+    ck.decide(has_first, R, "params:not-before-first-call", "no flush before the first deflate call (last_flush == -2)", "the last_flush != -2 condition is gone", where(pm, fl[0].line))
+    # the new level/strategy are installed only after the flush
+    lv = pm.live_calls(r"deflate::lm_set_level$")
+    st = [bi for bi, fp, root, rv, s in pm.field_writes() if fp[-1:] == ("strategy",)]
+    ok = bool(lv) and bool(st) and all(not pm.dominates(c.bb, fl[0].bb) for c in lv) and all(not pm.dominates(b, fl[0].bb) for b in st)
+    ck.decide(ok, R, "params:install-after-flush", "new level/strategy installed after the flush", "deflateParams installs the new level/strategy before flushing the old block", where(pm))
+
+
 def run(ck):
     P = prog("K1")
     ck.configs.add("K1")
@@ -82,4 +125,5 @@ def run(ck):
     ed = P.fn(Z + "deflate::encode_dist")
     if ed is not None:
         ck.decide(bool(ed.live_calls(r"State::d_code$")), "ATOM/table-use", "encode_dist:d_code", "uses d_code", "encode_dist does not use d_code", where(ed))
+    params_flush(ck, P)
     ck.assumptions += ["rustc const evaluation and MIR", "host target only"]
